@@ -386,8 +386,27 @@ class Gen:
                 bad_kinds.append(kind)
             if not bad_kinds:
                 return None
-        return {"w": w, "e": e, "entries": entries, "shapes": shapes, "flavor": flavor, "free": free, "bound": bound_all,
+        return {"raw": rng.random() < 0.15, "w": w, "e": e, "entries": entries, "shapes": shapes, "flavor": flavor, "free": free, "bound": bound_all,
                 "malformed": malformed, "bad_kinds": bad_kinds}
+
+
+def demote(x, is_key):
+    """the non-FNode spelling of an expression where one exists (auto_promote turns it back into the same node)"""
+    if x.is_fluent_exp() and not x.args:
+        return x.fluent()
+    if x.is_parameter_exp():
+        return x.parameter()
+    if x.is_variable_exp():
+        return x.variable()
+    if is_key:
+        return x            # constants as dict keys would collide (1 == True)
+    if x.is_object_exp():
+        return x.object()
+    if x.is_bool_constant():
+        return x.bool_constant_value()
+    if x.is_int_constant() or x.is_real_constant():
+        return x.constant_value()
+    return x
 
 
 def sample_interps(w, c, rng, n):
@@ -427,6 +446,12 @@ def run(ctx):
         w, e, entries = c["w"], c["e"], c["entries"]
         em, env = w.em, w.env
         subs = dict(entries)
+        raw_entries = list(entries)
+        if c.get("raw"):
+            raw_entries = [(demote(k, True), demote(v, False)) for k, v in entries]
+            dist["maps_with_non_FNode_entries"] += 1
+        given = dict(raw_entries)
+        assert len(given) == len(entries)
         sub = env.substituter
         names = Names()
         for f in w.ifuns:
@@ -442,7 +467,7 @@ def run(ctx):
                 spec_exc = type(ex).__name__
         n_nodes, memo_len, stack_len, e_id, e_str = len(em.expressions), len(sub.memoization), len(sub.stack), e.node_id, str(e)
         try:
-            got, exc = e.substitute(subs), None
+            got, exc = e.substitute(given), None
         except BaseException as ex:
             got, exc = None, ex
         rec["observed"] = str(got) if exc is None else "%s: %s" % (type(exc).__name__, exc)
@@ -468,10 +493,11 @@ def run(ctx):
                 changed.append("shared substituter: memoization %d->%d stack %d->%d" % (memo_len, len(sub.memoization), stack_len, len(sub.stack)))
             if e.node_id != e_id or str(e) != e_str:
                 changed.append("expression changed")
-            good = {k: v for (k, v), s in zip(entries, c["shapes"]) if not s.startswith("bad:")}
+            good = {k: v for (k, v), s in zip(raw_entries, c["shapes"]) if not s.startswith("bad:")}
+            good_f = {k: v for (k, v), s in zip(entries, c["shapes"]) if not s.startswith("bad:")}
             try:
                 after = e.substitute(good) if good else e
-                want = topdown(em, e, good) if good else e
+                want = topdown(em, e, good_f) if good else e
                 if after != want:
                     changed.append("a later call with the compatible part of the map returns %s instead of %s" % (after, want))
             except ZeroDivisionError:
@@ -485,7 +511,7 @@ def run(ctx):
                          tags + ["rejection-not-clean"], rec, True)
                 return None
             msg = str(exc)
-            idx = [i for i, (k, v) in enumerate(entries)
+            idx = [i for i, (k, v) in enumerate(raw_entries)
                    if msg == "The expression type of %s is not compatible with the given substitution %s" % (str(k), str(v))]
             rec["err_index"] = idx[0] if idx else None
             if not idx:
@@ -511,9 +537,9 @@ def run(ctx):
             rec["topdown"] = str(spec)
             if got != spec:
                 direct_failures += 1
+                rec["py_oracle_failed"] = True      # the case still goes to Coq, which must flag it as well
                 ctx.fail("oracle", "FNode.substitute returned %s; replacing the maximal key occurrences top-down gives %s" % (got, spec),
-                         tags + ["result!=topdown"], rec, True)
-                return None
+                         tags + ["result!=topdown"], dict(rec), True)
             if len(sub.memoization) != 0 or len(sub.stack) != 0:
                 direct_failures += 1
                 ctx.fail("corr", "shared substituter keeps state after a call: memoization %d, stack %d" % (len(sub.memoization), len(sub.stack)),
@@ -589,8 +615,14 @@ def run(ctx):
                              imports=IMPORTS, preamble=pre + "Definition c := %s.\n" % cases[i])
         # the structural oracle (result == independent top-down replacement, clean rejection) already passed in Python for
         # every case that reached Coq, so a disagreement here is between the MODEL and the implementation
+        pf = bool(rec.get("py_oracle_failed"))
         ctx.fail("corr", "substitute: Coq model/specification and implementation disagree (corr:C13:substitute_call/topdown_replace/eval_checks)",
-                 rec["tags"] + ["corr"], {"case": rec, "model": model, "theorem_or_corr": "corr:C13:ok"}, False)
+                 rec["tags"] + ["corr"] + (["result!=topdown"] if pf else []),
+                 {"case": rec, "model": model, "theorem_or_corr": "corr:C13:ok"}, pf)
+    missed = [r for i, r in enumerate(raw) if r.get("py_oracle_failed") and i not in set(bad)]
+    if missed:
+        ctx.fail("harness", "Coq accepted %d case(s) on which the Python oracle found result != top-down replacement" % len(missed),
+                 ["c13", "coq-missed"], {"cases": missed[:3]}, True)
     if not ok_proofs:
         ctx.proof_broken()
     ctx.finish({
